@@ -21,7 +21,11 @@ from pathlib import Path
 VERIF = Path(__file__).resolve().parents[1]
 LEAN = VERIF / "lean"
 REPO = Path(os.environ.get("FUNSOR_REPO", "/repo"))
-DRIVER_BIN = LEAN / ".lake" / "build" / "bin" / "fvdriver"
+BIN_DIR = LEAN / ".lake" / "build" / "bin"
+
+
+def driver_bin(prop):
+    return BIN_DIR / f"drv_{prop.lower()}"
 ALLOWED_AXIOMS = {"propext", "Classical.choice", "Quot.sound"}
 FORBIDDEN = re.compile(
     r"\bsorry\b|\badmit\b|^\s*axiom\s|native_decide|bv_decide|implemented_by|\bunsafe\s|maxHeartbeats\s+0\b"
@@ -140,7 +144,7 @@ class Driver:
     returns the answer lines (same length).  A fresh process per batch keeps it simple and
     deterministic; start-up is a few milliseconds for the native binary."""
 
-    def __init__(self, binary=DRIVER_BIN):
+    def __init__(self, binary):
         self.binary = Path(binary)
         self.requests = 0
 
@@ -222,7 +226,7 @@ class Ctx:
         self.build_ok = None
         self.build_log = ""
         self.audit_ok = None
-        self.driver = Driver()
+        self.driver = Driver(driver_bin(prop))
         self.findings = [f for f in load_known_findings() if f.get("property") == prop]
         self.extra = {}
 
@@ -248,8 +252,8 @@ class Ctx:
     def build(self, with_props=True):
         """Build the native driver and this property's Props modules (which elaborates every
         theorem of the property, including obligations over regenerated Gen/ tables)."""
-        ok_d, log_d = self.lake_build(["fvdriver"])
-        self.driver_ok = ok_d and DRIVER_BIN.exists()
+        ok_d, log_d = self.lake_build([f"drv_{self.prop.lower()}"])
+        self.driver_ok = ok_d and self.driver.binary.exists()
         targets = self.props_modules() + ["FunsorVerif.Audit"]
         ok_p, log_p = (True, "")
         if with_props:
@@ -278,7 +282,7 @@ class Ctx:
 
     def grep_forbidden(self):
         hits = []
-        for f in list((LEAN / "FunsorVerif").rglob("*.lean")) + [LEAN / "Driver.lean"]:
+        for f in list((LEAN / "FunsorVerif").rglob("*.lean")) + list((LEAN / "Main").glob("*.lean")):
             txt = f.read_text()
             # strip block comments and line comments
             txt2 = re.sub(r"/-.*?-/", lambda m: "\n" * m.group(0).count("\n"), txt, flags=re.S)
